@@ -84,6 +84,15 @@ def matrix(thorough):
     prim = {"filelist": f"{EX}/primordial/primordial.krome", "fileformats": "krome", "elements": ["e", "H", "D", "He"], "pseudo_elements": ["Photon"]}
     cases.append(("thermal-primordial", {"network": dict(prim, cooling=["CIC_HI", "CIC_HeI", "RC_HII", "CEC_HI"])}, backs))
     cases.append(("thermal-one", {"network": dict(prim, cooling=["RC_HeIII"])}, ["dense"]))
+    # every cooling process the tool offers (read from its registry when the check runs), as the bundled primordial example selects them
+    try:
+        import subprocess as _sp
+        names = _sp.run([proj.PY, "-c", "from naunet.thermalprocess import supported_cooling_process as s; print(','.join(s))"], capture_output=True, text=True, env=child_env(dict(os.environ)), timeout=120).stdout.strip().split(",")
+        names = [n for n in names if n]
+    except Exception:
+        names = []
+    if names:
+        cases.append(("thermal-all-cooling", {"network": dict(prim, cooling=names)}, ["dense", "odeint"]))
     leeds_h2co = "\n".join(encoders.leeds(r) for r in [
         {"reactants": ["H2", "PHOTON"], "products": ["H", "H"], "a": "1.0E-10", "b": "0.00", "c": "2.5", "tmin": "10", "tmax": "41000", "idx": 1, "code": 4},
         {"reactants": ["CO", "PHOTON"], "products": ["C", "O"], "a": "2.0E-10", "b": "0.00", "c": "2.5", "tmin": "10", "tmax": "41000", "idx": 2, "code": 4},
